@@ -107,5 +107,10 @@ func SweepNames() []string {
 	for _, f := range fills {
 		out = append(out, "n"+f, f+"n", "n"+f+"m.go", "d/"+f+"x", "d"+f+"/x.go", f)
 	}
+	// depth and length: many directory levels, a long element (below the 255-byte limit of the file system)
+	for _, n := range []int{9, 10, 20, 60} {
+		out = append(out, strings.Repeat("d/", n)+"x.go", strings.Repeat("D/", n)+"y.go")
+	}
+	out = append(out, strings.Repeat("n", 200), "dir/"+strings.Repeat("m", 200)+".go")
 	return out
 }
